@@ -215,6 +215,12 @@ func checkC17(p *Prog, rp *Report) {
 	scripts = append(scripts,
 		[]string{H6, B, C1, B, T1},
 		[]string{H7, B, C1, B, T1, B, H6, B, C1, C2, B, T2})
+	// names and change lines outside ASCII (UTF-8 is what changelogs are written in): first and last bytes >= 0x80
+	T3 := " -- \u00d8rjan \u00c9mile \u00c5\u00e0 <orjan@example.org>  Mon, 02 Jan 2006 15:04:05 -0700\n"
+	C3 := "  * Gr\u00fc\u00dfe \u2014 d\u00e9j\u00e0\n"
+	scripts = append(scripts,
+		[]string{H1, B, C3, B, T3},
+		[]string{H2, B, C1, C3, B, T3, B, H1, B, C3, B, T1})
 	// lines far longer than any reader buffer
 	longChange := "  * Closes: " + strings.Repeat("#123456, ", 700) + "\n"
 	scripts = append(scripts, []string{H1, B, longChange, C2, B, T1}, []string{H1, B, C1, B, T1, B, H2, B, longChange, B, T2})
